@@ -1,0 +1,35 @@
+//go:build verif
+
+// Verification hook (add-only, compiled only with -tags verif): runs the link-service dispatch
+// (dispatchInterest / dispatchData) for a packet, as if it had arrived on a face of the given scope.
+// No behaviour of the package is changed.
+
+package face
+
+import (
+	"github.com/named-data/ndnd/fw/defn"
+)
+
+type verifFwTransport struct {
+	transportBase
+}
+
+func (t *verifFwTransport) String() string                  { return "verifFwTransport" }
+func (t *verifFwTransport) SetPersistency(Persistency) bool { return true }
+func (t *verifFwTransport) GetSendQueueSize() uint64        { return 0 }
+func (t *verifFwTransport) runReceive()                     {}
+func (t *verifFwTransport) Close()                          {}
+func (t *verifFwTransport) sendFrame(frame []byte)          {}
+
+// VerifFwDispatch hands pkt (already parsed, IncomingFaceID set) to the forwarding threads exactly as
+// linkServiceBase does after decoding a frame received on face faceID with the given scope.
+func VerifFwDispatch(scope defn.Scope, faceID uint64, pkt *defn.Pkt) {
+	t := &verifFwTransport{}
+	t.makeTransportBase(defn.MakeNullFaceURI(), defn.MakeNullFaceURI(), PersistencyPermanent, scope, defn.PointToPoint, defn.MaxNDNPacketSize)
+	l := &linkServiceBase{faceID: faceID, transport: t}
+	if pkt.L3.Interest != nil {
+		l.dispatchInterest(pkt)
+	} else if pkt.L3.Data != nil {
+		l.dispatchData(pkt)
+	}
+}
